@@ -199,8 +199,9 @@ func (t *memTransport) Do(req *http.Request) (*http.Response, error) {
 	trailer := http.Header{}
 	go func() {
 		defer func() {
-			if p := recover(); p != nil && p != http.ErrAbortHandler {
+			if p := recover(); p != nil {
 				// a handler panic tears the exchange down like net/http does
+				_ = req.Body.Close()
 				pw.CloseWithError(fmt.Errorf("handler panic: %v", p))
 				rw.once.Do(func() { close(rw.ready) })
 				return
